@@ -902,7 +902,9 @@ func (w *_assemblerRepr) AssignString(s string) error {
 		}
 		members := w.schemaType.(*schema.TypeEnum).Members()
 		for _, member := range members {
-			if s == member {
+			// A member without an entry in the representation table is represented by its own name;
+			// a renamed member is represented only by the string it is renamed to.
+			if _, renamed := stg[member]; !renamed && s == member {
 				return (*_assembler)(w).AssignString(member)
 			}
 		}
